@@ -493,6 +493,8 @@ FIXED = [
     {"kind": "s3", "timeout": 8.0, "contenders": [{"hold": 0.5}, {}], "extras": [{"kind": "age", "seconds": 120}, {"kind": "renew", "of": 0}, {"kind": "probe", "of": 0}]},
     {"kind": "s3", "timeout": 4.0, "contenders": [{"hold": 1000.0}, {}], "extras": [{"kind": "age", "seconds": 30}]},
     {"kind": "s3", "timeout": 8.0, "contenders": [{"rounds": 2, "fail_release": True}, {}], "extras": [{"kind": "age", "seconds": 120}]},
+    # the same provider holds the lock in two successive tenures while a contender that saw the FIRST one expired is still on its way
+    {"kind": "s3", "timeout": 8.0, "contenders": [{"rounds": 2}, {}], "extras": [{"kind": "age", "seconds": 120}]},
 ]
 
 
@@ -584,6 +586,10 @@ def plan(tier, seed):
     ns = 12
     for s in range(ns):
         tasks.append({"kind": "depth3", "sc": tiny, "D": 14 if tier == "quick" else 18, "shard": s, "nshard": ns})
+    # two successive tenures of ONE provider, a lease lapse, and a contender that may have seen the first tenure expire
+    tiny2 = {"kind": "s3", "timeout": 8.0, "contenders": [{"rounds": 2, "hold": 0.03}, {}], "extras": [{"kind": "age", "seconds": 120}]}
+    for s in range(ns):
+        tasks.append({"kind": "depth3", "sc": tiny2, "D": 12 if tier == "quick" else 20, "shard": s, "nshard": ns})
     return tasks
 
 
